@@ -242,6 +242,30 @@ def run(tier):
         full = c.subs([(x, 0.25), (y, 0.5)])
         suite.fact('circuit[%s].free_symbols' % name, c.free_symbols == {x, y} and not full.free_symbols,
                    functions=['cat.Arrow.free_symbols'])
+    # chained lists of pairs (sympy substitutes them one after the other: an earlier expression may mention a later variable),
+    # on whole diagrams whose boxes each contain only some of the symbols
+    with suite.guard('chained substitution lists', ['monoidal.Diagram.subs']):
+        chain = [(x, 2 * y), (y, sympy.Rational(3, 10))]
+        for nm, dg in (('circuit', Rx(x) @ Id(1) >> gates.CX >> Rz(y) @ Ry(x + y)),
+                       ('tensor', tensor.Box('a', Dim(1), Dim(2), [x, 1]) >> tensor.Box('b', Dim(2), Dim(2), [y, 0, x * y, 1]))):
+            sub = dg.subs(chain)
+            suite.fact('subs.chained[%s].free_symbols' % nm, not sub.free_symbols, functions=['monoidal.Diagram.subs'],
+                       what='substituting every symbol by a chained list leaves none (left: %r)' % (sub.free_symbols,))
+            want_side = [sympy.sympify(v).subs(chain) for v in arr(dg.eval())]
+            suite.fact('subs.chained[%s].commutes' % nm,
+                       bool(not sub.free_symbols and numpy.allclose(numpy.array([complex(sympy.N(v)) for v in arr(sub.eval())]),
+                                                                     numpy.array([complex(sympy.N(v)) for v in want_side]), atol=1e-9)),
+                       functions=['monoidal.Diagram.subs'], what='substituting a chained list then evaluating = evaluating then substituting the list')
+    # lambdify of tensors whose arrays are views (the result of a dagger, a tensor, an evaluation)
+    with suite.guard('Tensor.lambdify on views', ['tensor.Tensor.lambdify']):
+        tv_ = tensor.Tensor(Dim(2), Dim(3), [x, 2, y, x * y, 5, x + y])
+        for nm, tt in (('t', tv_), ('t.dagger()', tv_.dagger()), ('t @ t', tv_ @ tv_), ('(t >> t.dagger()) @ t', (tv_ >> tv_.dagger()) @ tv_),
+                       ('swap', tv_ @ tv_.dagger() >> tensor.Tensor.swap(Dim(3), Dim(2)))):
+            lam_ = tt.lambdify(x, y)(2, 3)
+            sb_ = tt.subs([(x, 2), (y, 3)])
+            suite.fact('Tensor.lambdify.view[%s]' % nm, (lam_.dom, lam_.cod) == (sb_.dom, sb_.cod) and
+                       bool(numpy.allclose(numpy.array(lam_.array, dtype=complex), numpy.array([[complex(sympy.N(v)) for v in arr(sb_)]]).reshape(numpy.shape(lam_.array)))),
+                       functions=['tensor.Tensor.lambdify'], what='calling the lambdified tensor on values = substituting them')
     vx = tensor.Box('vx', Dim(1), Dim(2), [x, x ** 2])
     wy = tensor.Box('wy', Dim(2), Dim(1), [y, y + 1])
     wz = tensor.Box('wz', Dim(1), Dim(1), [z])
